@@ -249,11 +249,17 @@ PER_OP = {
     'initiate_upgrade_action': {'components_mask': 2, 'action': 2},
 }
 
+def _bmc_reservation(env):
+    """the (one) reservation id the scripted BMC grants"""
+    r = fi.Bmc().answer('ReserveSdrRepository', b'')
+    return r[1] | r[2] << 8
+
+
 EXTRA = {
     'read_fru_data': [{'offset': 3, 'count': 70}],
     'get_lan_config_param': [{'revision_only': 1}],
-    'get_repository_sdr': [{'record_id': 2, 'reservation_id': 0x0304}],
-    'get_device_sdr': [{'record_id': 2, 'reservation_id': 0x0304}],
+    'get_repository_sdr': [{'record_id': 2, 'reservation_id': 0x0304}, {'record_id': 2, 'reservation_id': _bmc_reservation}],
+    'get_device_sdr': [{'record_id': 2, 'reservation_id': 0x0304}, {'record_id': 2, 'reservation_id': _bmc_reservation}],
     'activate_firmware': [{'rollback_override': 1}],
     'set_fru_activation_policy': [{'ctrl': 3}],
     'send_channel_power': [{'enable': False}],
@@ -936,8 +942,13 @@ def _op_models(ctx, sw, drv, rng):
           [(1, CA), (3, C5)], [(1, CA), (2, C5), (4, CA), (6, C5)], [(1, C5), (2, 0xD5)], [(0, C5)],
           [(1, C5), (3, C5), (5, C5), (7, C5), (9, C5), (11, C5)]]),
     ]
+    # SDR reads with a caller reservation: a foreign id (772) and the id the BMC grants (the hypothesis `hgiven` of
+    # script_get_sdr_multi_safe).  The model carries ONE reservation id through a record; with a foreign id the requests
+    # after a renewal (C5h) depend on whether the renewed id is handed on (C13, fixes/C13-2) - those fault scripts are
+    # run with the BMC's own id only, where both variants issue the same requests
+    own_res = _bmc_reservation(None)
     for label, op, prefix in (('sdr-repo', 'get_repository_sdr', 'sdr %s' % dev), ('sdr-dev', 'get_device_sdr', 'sdr %s' % dev)):
-        for ri, (resarg, rid) in enumerate((('-', 0), ('772', 2))):
+        for ri, (resarg, rid) in enumerate((('-', 0), ('772', 2), (str(own_res), 2))):
             plan.append(('%s-%d' % (label, ri), op, ri, '%s %s %d' % (prefix, resarg, rid), v_sdr,
                          [[(k, CA) for k in range(2, 2 + m)] for m in range(1, 7)] +
                          [[(2, CA), (3, C5)], [(2, C5), (4, C5)], [(2, 0xC3), (3, 0xCE), (4, 0xC3)],
@@ -966,6 +977,9 @@ def _op_models(ctx, sw, drv, rng):
             if op == 'get_sel_entry' or 'sel_entries' in op or op == 'get_and_clear_sel_entry':
                 if sum(1 for (_, c) in fs if c == CA) > 16:
                     continue        # outside the model: Python's request length goes below zero
+            if label in ('sdr-repo-1', 'sdr-dev-1') and any(c == C5 for (_, c) in fs):
+                ctx.count('op-model:foreign-reservation+C5h (run with the BMC id instead)')
+                continue            # see above: recipe 2 runs the same scripts with the id the BMC grants
             real = execute(op, rec, sw.env, 'default', dict((k, (c, False)) for k, c in fs))
             want = tag(real)
             if real['kind'] == 'ok':
